@@ -241,13 +241,10 @@ func c13r2(p *Program, r *Report) {
 			}
 		}
 	}
-	ast.Inspect(fs.Body, func(x ast.Node) bool {
-		br, ok := x.(*ast.BranchStmt)
-		if !ok || br.Tok != token.CONTINUE || br.Pos() < attempt.Pos() {
-			return true
-		}
+	for _, be := range BackEdges(p, facts, fs, attempt.Pos()) {
+		br := be.Node
 		n++
-		f, _ := facts.Before(br)
+		f := be.State
 		var rtOK, attOK, idemOK bool
 		for atom, v := range f.m {
 			switch {
@@ -263,8 +260,7 @@ func c13r2(p *Program, r *Report) {
 		r.Check(rtOK && attOK, br, name+" allowed by the policy", "rt != nil and rt.Attempt(qry) hold", "the query is re-executed without the retry policy having allowed another attempt")
 		r.Check(idemOK, br, name+" only for idempotent queries", "qry.IsIdempotent() holds",
 			"a failed attempt is retried without checking qry.IsIdempotent(): the documentation (doc.go 'Non-idempotent queries are not eligible for retrying', Query.IsIdempotent) says it never is")
-		return true
-	})
+	}
 	if n == 0 {
 		r.Unresolved("do: no retry back-edge after the attempt")
 	}
@@ -649,17 +645,13 @@ func c13r6(p *Program, r *Report) {
 		},
 	})
 	n := 0
-	ast.Inspect(fs.Body, func(x ast.Node) bool {
-		br, ok := x.(*ast.BranchStmt)
-		if !ok || br.Tok != token.CONTINUE || br.Pos() < attempt.Pos() {
-			return true
-		}
+	for _, be := range BackEdges(p, sol, fs, attempt.Pos()) {
+		br := be.Node
 		n++
-		s, reach := sol.Before(br)
+		s, reach := be.State, true
 		r.Check(!reach || !s.unrecorded, br, "(*queryExecutor).do records the attempt's error before retrying", "lastErr = iter.err on every path from the attempt to this retry",
 			"a retry is started without recording the failed attempt's error: when the hosts then run out the caller gets an earlier attempt's error (or ErrNoConnections) instead of the last attempt's")
-		return true
-	})
+	}
 	if n == 0 {
 		r.Unresolved("do: no retry back-edge")
 	}
@@ -890,8 +882,62 @@ func c13r8(p *Program, r *Report) {
 			r.Unresolved("%s has no exits", name)
 		}
 		if counted != nil && len(counted.Args) >= 1 {
-			k, isK := constInt(info, counted.Args[0])
-			r.Check(isK && k == 1, counted, name+" adds one attempt", "metrics.attempt(1, ...)", "an execution is counted as "+exprStr(counted.Args[0])+" attempts")
+			// which argument is the number of attempts: what (*queryMetrics).attempt adds to the running total
+			argIdx, field := 0, ""
+			if mf := p.Func("(*queryMetrics).attempt"); mf != nil && mf.Decl.Body != nil {
+				minfo := mf.Pkg.TypesInfo
+				ast.Inspect(mf.Decl.Body, func(x ast.Node) bool {
+					as, ok := x.(*ast.AssignStmt)
+					if !ok || as.Tok != token.ADD_ASSIGN || len(as.Lhs) != 1 || len(as.Rhs) != 1 {
+						return true
+					}
+					if fv := fieldOf(minfo, as.Lhs[0]); fv == nil || fv.Name() != "totalAttempts" {
+						return true
+					}
+					rhs := ast.Unparen(as.Rhs[0])
+					f := ""
+					if sel, isSel := rhs.(*ast.SelectorExpr); isSel && fieldOf(minfo, sel) != nil {
+						f = sel.Sel.Name
+						rhs = ast.Unparen(sel.X)
+					}
+					if id, isId := rhs.(*ast.Ident); isId {
+						if k := paramIndexByName(mf.Decl.Type, id.Name); k >= 0 {
+							argIdx, field = k, f
+						}
+					}
+					return true
+				})
+			}
+			var amount ast.Expr
+			if argIdx < len(counted.Args) {
+				amount = counted.Args[argIdx]
+				if field != "" {
+					lit := ast.Unparen(amount)
+					if u, isU := lit.(*ast.UnaryExpr); isU && u.Op == token.AND {
+						lit = ast.Unparen(u.X)
+					}
+					amount = nil
+					if cl, isCL := lit.(*ast.CompositeLit); isCL {
+						amount = &ast.BasicLit{Kind: token.INT, Value: "0"} // a field left out is zero
+						for _, el := range cl.Elts {
+							if kv, isKV := el.(*ast.KeyValueExpr); isKV && exprStr(kv.Key) == field {
+								amount = kv.Value
+							}
+						}
+					}
+				}
+			}
+			got := "?"
+			isK, k := false, int64(0)
+			if amount != nil {
+				got = exprStr(amount)
+				if bl, isBL := amount.(*ast.BasicLit); isBL && bl.Value == "0" && info.Types[amount].Value == nil {
+					isK, k = true, 0
+				} else {
+					k, isK = constInt(info, amount)
+				}
+			}
+			r.Check(isK && k == 1, counted, name+" adds one attempt", "metrics.attempt(1, ...)", "an execution is counted as "+got+" attempts")
 		}
 	}
 }
